@@ -431,13 +431,21 @@ func (c *FuncCtx) evalBinary(st *State, x *ast.BinaryExpr) *Val {
 		st.guard = append(st.guard, l.S)
 		r := c.eval(st, x.Y)
 		st.guard = st.guard[:len(st.guard)-1]
-		return &Val{T: tBool, S: mkAnd(l.S, r.S), Sort: "Bool"}
+		res := &Val{T: tBool, S: mkAnd(l.S, r.S), Sort: "Bool"}
+		if l.SA != "" || r.SA != "" {
+			res.SA = mkAnd(l.forAssume(), r.forAssume())
+		}
+		return res
 	case token.LOR:
 		l := c.eval(st, x.X)
 		st.guard = append(st.guard, mkNot(l.S))
 		r := c.eval(st, x.Y)
 		st.guard = st.guard[:len(st.guard)-1]
-		return &Val{T: tBool, S: mkOr(l.S, r.S), Sort: "Bool"}
+		res := &Val{T: tBool, S: mkOr(l.S, r.S), Sort: "Bool"}
+		if l.SA != "" || r.SA != "" {
+			res.SA = mkOr(l.forAssume(), r.forAssume())
+		}
+		return res
 	}
 	l := c.eval(st, x.X)
 	r := c.eval(st, x.Y)
@@ -987,9 +995,13 @@ func (c *FuncCtx) evalComposite(st *State, x *ast.CompositeLit, addr bool) *Val 
 		h := c.fresh("foreign_"+n.Obj().Name(), "Int")
 		if addr {
 			os := c.eng.sorts.opt("Int")
-			return &Val{T: types.NewPointer(t), S: app("some_"+os, h), Sort: os}
+			pv := &Val{T: types.NewPointer(t), S: app("some_"+os, h), Sort: os}
+			c.zeroGhosts(st, pv)
+			return pv
 		}
-		return &Val{T: t, S: h, Sort: "Int"}
+		fv := &Val{T: t, S: h, Sort: "Int"}
+		c.zeroGhosts(st, fv)
+		return fv
 	}
 	switch u := under(t).(type) {
 	case *types.Struct:
